@@ -52,9 +52,7 @@ def run(ctx):
     for tr in traces[:2] + traces[len(traces) // 2:len(traces) // 2 + 1]:
         ctx.sample(tr)
     # validate in chunks so that a rejection is located quickly
-    CH = 4000
-    for i in range(0, len(traces), CH):
-        vlib.check_traces(ctx, traces[i:i + CH], "b%d" % (i // CH))
+    vlib.check_traces_chunks(ctx, traces, 2500, "b")
     # a second timing configuration: Timeout shorter than ConcurrencyDelay
     if not ctx.replay:
         ctx.mc("Dial", "MCDial_b.cfg", timeout=1800)
